@@ -5,6 +5,9 @@ pub mod c02;
 pub mod c03;
 pub mod c04;
 pub mod c05;
+pub mod c08;
+pub mod c09;
+pub mod c10;
 pub mod c11;
 pub mod c12;
 pub mod c13;
@@ -20,6 +23,9 @@ pub fn all() -> Vec<Box<dyn PropDyn>> {
         Box::new(c03::prop()),
         Box::new(c04::prop()),
         Box::new(c05::prop()),
+        Box::new(c08::prop()),
+        Box::new(c09::prop()),
+        Box::new(c10::prop()),
         Box::new(c11::prop()),
         Box::new(c12::prop()),
         Box::new(c13::prop()),
